@@ -116,8 +116,9 @@ func checkExactStats(c *core.Ctx, st *skState) {
 	} else if !(math.Abs(got-es.sum) <= bound) {
 		c.Failf("exact.sum", "GetSum()=%v, exact %v: |diff| %g > bound %g (%d items, %v lossy events)", got, es.sum, math.Abs(got-es.sum), bound, es.n, L)
 	}
-	if es.absSum > 0 {
+	if es.absSum > 1e-280 && st.mdl.PeakAbs <= math.MaxFloat64/1024 {
 		c.Max("sum_error_in_units_of_2^-53_sum_abs", math.Abs(got-es.sum)/(0x1p-53*es.absSum))
+		c.Max("sum_error_as_fraction_of_bound", math.Abs(got-es.sum)/bound)
 	}
 	// with arbitrary (non-dyadic) weights the sparse store's totals depend on map iteration order, so
 	// two evaluations of the same query may legitimately differ in the last bit of a rank
